@@ -124,19 +124,31 @@ fn fresh_oracle(c: &FreshCase) -> Verdict {
 
     // ---- encrypt
     let enc = &w.encryptor;
+    // destination forms: half of the time the destination is a previously used buffer (another level, BGV correction factor != 1,
+    // BFV in NTT form, a CKKS scale of its own) - encrypting into it must give the same result as into a new object
+    let dirty = c.level_sel & 1 == 1;
+    let dest = || -> Ciphertext {
+        if !dirty { return Ciphertext::new(); }
+        catch(|| {
+            let mut d = enc.encrypt_zero_new();
+            if w.levels.len() > 1 { d = w.evaluator.mod_switch_to_next_new(&d); }
+            match c.ps.scheme { Scheme::BFV => w.evaluator.transform_to_ntt_inplace(&mut d), Scheme::CKKS => d.set_scale(12345.0), Scheme::BGV => {} }
+            d
+        }).unwrap_or_else(|_| Ciphertext::new())
+    };
     let run = || -> Ciphertext {
         match c.mode {
             Mode::Pk => enc.encrypt_new(&plain),
-            Mode::PkInto => { let mut d = enc.encrypt_zero_symmetric_new(); enc.encrypt(&plain, &mut d); d }
+            Mode::PkInto => { let mut d = if dirty { dest() } else { enc.encrypt_zero_symmetric_new() }; enc.encrypt(&plain, &mut d); d }
             Mode::PkUPrng => enc.encrypt_new_with_u_prng(&plain, &mut prng(c.prng_seed)),
-            Mode::Sk => { let mut d = Ciphertext::new(); enc.encrypt_symmetric(&plain, &mut d); d }
+            Mode::Sk => { let mut d = dest(); enc.encrypt_symmetric(&plain, &mut d); d }
             Mode::SkSeed => enc.encrypt_symmetric_new(&plain),
             Mode::SkSeedUPrng => enc.encrypt_symmetric_new_with_u_prng(&plain, &mut prng(c.prng_seed)),
             Mode::ZeroPk => enc.encrypt_zero_new(),
-            Mode::ZeroSk => { let mut d = Ciphertext::new(); enc.encrypt_zero_symmetric(&mut d); d }
+            Mode::ZeroSk => { let mut d = dest(); enc.encrypt_zero_symmetric(&mut d); d }
             Mode::ZeroSkSeed => enc.encrypt_zero_symmetric_new(),
             Mode::ZeroPkAt => enc.encrypt_zero_new_at(&lid),
-            Mode::ZeroSkAt => { let mut d = Ciphertext::new(); enc.encrypt_zero_symmetric_at(&lid, &mut d); d }
+            Mode::ZeroSkAt => { let mut d = dest(); enc.encrypt_zero_symmetric_at(&lid, &mut d); d }
             Mode::ZeroSkSeedAt => enc.encrypt_zero_symmetric_new_at(&lid),
             Mode::ZeroPkAtUPrng => enc.encrypt_zero_new_at_with_u_prng(&lid, &mut prng(c.prng_seed)),
         }
